@@ -16,6 +16,7 @@ import (
 // Admission cases.
 //
 // head:   adm mp=<config.MaxPeers> ip=<config.MaxPeersPerIP> D=<ban duration in clock units>
+//         [u=<milliseconds per clock unit>, default 3600000 (one hour); u=1 gives millisecond positions]
 // events: A<k>.<pid>.<h>   a NEW peer object <pid> of kind k (i inbound, o outbound, p persistent
 //                          outbound) from host <h> is delivered to handleAddPeerMsg
 //         C.<pid>          the connection of peer object <pid> drops (peer.Disconnect())
@@ -30,7 +31,6 @@ import (
 // /G<group:outboundGroups,..>/B<host:remaining ban units,..> (bans still in force); zero counters are not printed,
 // everything is sorted.  pids are the case's logical pids (the harness maps peer.ID() back).
 
-const c18Unit = time.Hour
 
 func c18HostIP(h int) string { return fmt.Sprintf("45.%d.%d.9", 10+h/3, 1+h%3) }
 
@@ -55,16 +55,47 @@ type c18PeerSpec struct {
 	host int
 }
 
-func c18RunAdm(head []string, evs []string) (obs string) {
+// c18RunAdm runs the case; a run in which the wall clock moved too far between re-anchoring a ban and the
+// handler's own time.Now() (only relevant for positions within 2 ms before an expiry) is repeated.
+func c18RunAdm(head []string, evs []string) string {
+	var obs string
+	for try := 0; try < 6; try++ {
+		var ok bool
+		obs, ok = c18RunAdm1(head, evs)
+		if ok {
+			break
+		}
+	}
+	return obs
+}
+
+func c18RunAdm1(head []string, evs []string) (obs string, reliable bool) {
+	reliable = true
 	mp, ip := p2p.VerifC18Limits()
 	if c18Head(head, "mp", -1) != mp || c18Head(head, "ip", -1) != ip {
 		// the case was written for other compiled-in limits: report them, the model is run with
 		// the limits of the input line and will disagree
-		return fmt.Sprintf("LIMITS mp=%d ip=%d", mp, ip)
+		return fmt.Sprintf("LIMITS mp=%d ip=%d", mp, ip), true
 	}
 	D := c18Head(head, "D", 10)
+	u := c18Head(head, "u", 3600000)
+	if u < 1 {
+		u = 1
+	}
+	c18Unit := time.Duration(u) * time.Millisecond
 	a := p2p.VerifC18NewAdm(time.Duration(D) * c18Unit)
 	defer a.Close()
+	// logical clock (units) and, per banned host, the logical expiry measured from what the real
+	// handleBanPeerMsg stored
+	nowU := int64(0)
+	expU := map[string]int64{}
+	reanchor := func() {
+		for _, h := range a.BannedHosts() {
+			if e, ok := expU[h]; ok {
+				a.SetBanLeft(h, time.Duration(e-nowU)*c18Unit)
+			}
+		}
+	}
 
 	// pre-scan: the attributes of each peer object come from its (first) A token
 	specs := map[int]c18PeerSpec{}
@@ -162,6 +193,9 @@ func c18RunAdm(head []string, evs []string) (obs string) {
 		var bs []be
 		for k, v := range s.BannedLeft {
 			left := int(math.Round(float64(v) / float64(c18Unit)))
+			if e, ok := expU[k]; ok {
+				left = int(e - nowU)
+			}
 			if left < 1 {
 				continue
 			}
@@ -203,7 +237,15 @@ func c18RunAdm(head []string, evs []string) (obs string) {
 			}
 			h, _ := get(pid)
 			added[pid] = true
+			t0 := time.Now()
+			reanchor()
 			d := a.Add(h)
+			if e, ok := expU[c18HostIP(sp.host)]; ok {
+				left := time.Duration(e-nowU) * c18Unit
+				if left > 0 && left <= 2*time.Millisecond && time.Since(t0) > 400*time.Microsecond {
+					reliable = false
+				}
+			}
 			return fmt.Sprintf("a%d%d", b2i(d), b2i(a.Connected(h)))
 		case strings.HasPrefix(e, "C."):
 			pid, err := strconv.Atoi(e[2:])
@@ -235,13 +277,16 @@ func c18RunAdm(head []string, evs []string) (obs string) {
 			if err := a.Ban(c18HostIP(h), 8333); err != nil {
 				return "?"
 			}
+			if left, ok := a.BanLeft(c18HostIP(h)); ok {
+				expU[c18HostIP(h)] = nowU + int64(math.Round(float64(left)/float64(c18Unit)))
+			}
 			return "b"
 		case len(e) >= 2 && e[0] == 'T':
 			n, err := strconv.Atoi(e[1:])
-			if err != nil || n < 0 || n > 1000000 {
+			if err != nil || n < 0 || n > 1000000000 {
 				return "?"
 			}
-			a.AdvanceClock(time.Duration(n) * c18Unit)
+			nowU += int64(n) // the stored expiries are re-anchored to the wall clock before each Add
 			return "t"
 		}
 		return "?"
@@ -251,9 +296,9 @@ func c18RunAdm(head []string, evs []string) (obs string) {
 		out = append(out, tag+":"+digest())
 	}
 	if len(out) == 0 {
-		return "-"
+		return "-", true
 	}
-	return strings.Join(out, " ")
+	return strings.Join(out, " "), reliable
 }
 
 func b2i(b bool) int {
@@ -345,6 +390,52 @@ func c18GenAdm(c *Ctx) error {
 					emit(append(evs, "C.2", "X.2", "Ai.3.0"), "add-drop-done-orders")
 				}
 			}
+		}
+	}
+
+	// ban edges, millisecond clock (u=1): ban durations 300 ms, 1.5 s and the default 24 h; a fresh
+	// peer of the banned host knocks at banEnd - {900,600,501,500,499,400,100,1} ms, at banEnd and at
+	// banEnd + {1,500} ms (the model compares exact instants: admitted iff now >= banEnd)
+	offs := []int{900, 600, 501, 500, 499, 400, 100, 1, 0, -1, -500}
+	for i, n := 0, c.Pick(45, 900); i < n; i++ {
+		D := []int{300, 1500, 86400000}[i%3]
+		h2 := fmt.Sprintf("adm mp=%d ip=%d D=%d u=1", mp, ip, D)
+		var evs []string
+		pidn := 0
+		add := func(host int) {
+			pidn++
+			evs = append(evs, fmt.Sprintf("A%c.%d.%d", "ioo"[c.Rng.Intn(3)], pidn, host))
+		}
+		if c.Rng.Intn(2) == 0 {
+			add(0)
+		}
+		if c.Rng.Intn(3) == 0 {
+			evs = append(evs, "B1", fmt.Sprintf("T%d", 1+c.Rng.Intn(200)))
+		}
+		evs = append(evs, "B0")
+		at := D // milliseconds left
+		for _, o := range offs {
+			if o > D || (i >= 9 && c.Rng.Intn(4) == 0) {
+				continue
+			}
+			if at-o > 0 {
+				evs = append(evs, fmt.Sprintf("T%d", at-o))
+			}
+			at = o
+			add(0)
+			if c.Rng.Intn(6) == 0 {
+				add(1)
+			}
+			if o > 0 && i >= 9 && c.Rng.Intn(12) == 0 {
+				evs = append(evs, "B0") // ban renewed: the expiry moves to now + D
+				at = D
+			}
+		}
+		in := h2 + ";" + strings.Join(evs, ";")
+		if !seen[in] {
+			seen[in] = true
+			c.Case(in, c18RunAdm(strings.Fields(h2), evs))
+			c.Count("adm:ban-edge-ms")
 		}
 	}
 
